@@ -231,6 +231,23 @@ pub fn judge(sc: &Scenario, r: &Report) -> Outcome {
     o
 }
 
+/// The world made no step during 15 s of CPU time: a loop in the code under test that never reaches
+/// a scheduling point (and so never ends - nothing it could wait for changes meanwhile).
+pub fn busy_loop_outcome(sc: &Scenario) -> Outcome {
+    let mut o = Outcome::default();
+    o.end = "busy_loop".into();
+    match sc.property.as_str() {
+        "C04" | "C06" | "C07" => {
+            o.evaluated = true;
+            o.verdicts.push(v(&sc.property, "busy_loop", format!("a thread of the code under test ran for {} s of CPU time without reaching any scheduling point: a loop that never ends; the connection (task) it serves is never answered and its worker is lost", crate::runner::CHILD_CPU_CAP_S / 2), None));
+        }
+        _ => {
+            o.inconclusive = Some("busy loop in the code under test (C04 / C06)".into());
+        }
+    }
+    o
+}
+
 /// The child died from a signal: stack exhaustion (SIGSEGV/SIGBUS), abort (double panic, alloc).
 pub fn crash_outcome(sc: &Scenario, sig: i32, _partial: &[u8]) -> Outcome {
     let mut o = Outcome::default();
